@@ -391,6 +391,11 @@ def check(run, only=None):
         'a > b is read as b < a in the model (operand evaluation order is unobservable for pure, definitely-assigned code)',
         'C02_functional_eq_native_partial is partial correctness of the tracing run: "total / definitely assigned" enters as '
         '"the tracing run terminates without raising"',
+        'the model reads every variable through ag__.ld; the generated reads of jump-control variables (`ag__.not_(break_)`, '
+        '`(break_,)`) are not wrapped — exact as long as those variables are never Undefined placeholders, which the '
+        'sem-native / sem-functional correspondences check on the real output',
+        'return lowering of the trailing `return e` (try: do_return = True; retval_ = e except: ... raise; return fscope.ret(...)) '
+        'is read as `ret e` on both sides of the correspondence (the try/except of the jump passes is outside the proved fragment)',
     ]
     # (i) theorems
     run.build_and_audit('MaltModel.Props.C01Func', extra_targets=[], model_files=[])
@@ -399,7 +404,7 @@ def check(run, only=None):
     run.axioms.update(ax1)
 
     quick = run.tier == 'quick'
-    n_core, n_rich = (220, 140) if quick else (2400, 1600)
+    n_core, n_rich = (180, 110) if quick else (1600, 1000)
     t0 = time.time()
     rng = run.rng
     cov = run.cov
@@ -422,6 +427,12 @@ def check(run, only=None):
     shape_problems = []
     cov['known_witnesses'] = dict((r['stream'][6:], {'fails': bool(r['conv_error']) or any(x[1] != x[3] for x in r['results']),
                                                      'classes': r['classes']}) for r in recs if r['stream'].startswith('known:'))
+
+    for cls, st in cov['known_witnesses'].items():
+        if not st['fails']:
+            run.notes.append('witness of known finding class %s no longer fails (fixed? then drop the finding and its hypothesis)' % cls)
+        if cls not in st['classes']:
+            run.notes.append('witness of known finding class %s does not satisfy its own class predicate' % cls)
 
     # ---------------- direct oracle ----------------
     for r in recs:
@@ -547,7 +558,11 @@ def check(run, only=None):
 def replay(run, path):
     with open(path) as f:
         rep = json.load(f)
-    case = rep.get('case', rep)
+    if 'case' not in rep:          # a broken obligation without failing input: re-run the whole check
+        print(json.dumps(rep, indent=1)[:3000])
+        check(run)
+        return run.finish()
+    case = rep['case']
     print(json.dumps({k: case[k] for k in case if k != 'source'}, indent=1))
     print(case.get('source', ''))
     sys.path.insert(0, common.REPO)
